@@ -105,6 +105,10 @@ func runLoaderCase(root string, c *loaderCase, n int) {
 		case "broken":
 			write(d+"/zz_broken.toml", "collision_mode = \nthis is [not toml")
 			write(d+"/00_broken.toml", "[[mapping]]\nname = 5\n")
+		case "decoder_panic":
+			// documents on which go-toml v2.0.3 panics (array-table child without parent, date for a number)
+			write(d+"/00_orphan.toml", "[[mapping.keys]]\nsubhandler = \"\"\n[mapping.keys.map]\nKEY_A = \"1\"\n")
+			write(d+"/zz_date.toml", "[open_rgb]\nwhite = 1979-05-27\n")
 		case "txt":
 			write(d+"/notes.txt", cfgText(99, 3, 0x1234, 0x5678, 0x0111))
 			write(d+"/README", "hello")
@@ -169,7 +173,7 @@ func cmdLoader(args []string) error {
 	defer w.Flush()
 	enc := json.NewEncoder(w)
 	types := []string{"Keyboard", "Joystick", "Mouse", "Unknown"}
-	junks := []string{"none", "broken", "txt", "nested_broken", "foreign", "nested_foreign"}
+	junks := []string{"none", "broken", "decoder_panic", "txt", "nested_broken", "foreign", "nested_foreign"}
 	missings := [][]string{{}, {"factory/gamepad"}, {"factory/keyboard"}, {"user/gamepad"}, {"user/keyboard"},
 		{"user/gamepad", "user/keyboard"}, {"factory/gamepad", "factory/keyboard", "user/gamepad", "user/keyboard"}}
 	mk := func(bits int, t, j string, m []string) *loaderCase {
